@@ -35,7 +35,7 @@ def gen_ops_cases(rng, tier, n_quick, n_thorough, refuse_sweep=False, steps=(4, 
         ns = rng.range(*steps)
         refuse = -1
         if refuse_sweep:
-            refuse = rng.range(0, 6) if rng.chance(3, 4) else -1
+            refuse = rng.range(0, ns - 1) if rng.chance(3, 4) else -1
         flush = rng.below(2)
         budget = 16 if rng.chance(9, 10) else 200
         cases.append(("g%d" % j, O.gen_history(rng, shape, ns, refuse=refuse, flush=flush, budget=budget)))
